@@ -281,6 +281,15 @@ def queue_full(sl):
     got = s.samples
     observe("the first `size` samples are kept, only the overflow is dropped", [x.absolute_time for x in got] == list(range(size)))
     observe("queue drained", len(s.samples) == 0)
+    # once the queue has been drained it has room again: later requests are recorded although the queue was full before
+    m = size + 1
+    for i in range(m):
+        s.add(TASK, 0, metrics.SampleType.Normal, {}, 100 + i, 100 + i, 0, 0, 0, None, 1, "ops", 1, None)
+    again = s.samples
+    observe("after a drain the queue accepts samples again (only a FULL queue drops)", [x.absolute_time for x in again] == [100 + i for i in range(size)])
+    for i in range(size):
+        s.add(TASK, 0, metrics.SampleType.Normal, {}, 200 + i, 200 + i, 0, 0, 0, None, 1, "ops", 1, None)
+    observe("... also after the second overflow", [x.absolute_time for x in s.samples] == [200 + i for i in range(size)])
     core.fresh_int("dummy", 0, 0)
 
 
